@@ -313,3 +313,19 @@ func countKind(t *an.Trace, kind string) int { return len(eventsOf(t, kind)) }
 
 // rawReject reports whether the trace contains the raw-bytes reject (RejectMessage spliced in): a ValueByTag lookup followed by a Reject send.
 func isRejectSend(e an.Event) bool { return e.Kind == "send" && len(e.Kinds) == 1 && e.Kinds[0] == "Reject" }
+
+// guardSet intersects what all (non-stale) state tests before the first own state change or send have established.
+func (s *sess) guardSet(t *an.Trace) (an.StateSet, bool) {
+	set := s.m.AllStates
+	found := false
+	for _, e := range t.Events {
+		if e.Kind == "state" || e.Kind == "send" {
+			break
+		}
+		if e.Kind == "guard" && !e.Stale {
+			set &= e.Read
+			found = true
+		}
+	}
+	return set, found
+}
